@@ -533,6 +533,7 @@ type FuncSpec struct {
 	Loops    map[int]*LoopSpec
 	Anchors  []*Anchor
 	Observe  []string
+	Opaque   []string
 	ExitRows []*Row // event rows for the path from the last cut point to return
 	EntryRows []*Row
 	Inline   bool // never use modularly (always inline)
@@ -602,7 +603,7 @@ func NewSpecs() *Specs {
 }
 
 var clauseKeywords = map[string]bool{"spec": true, "pred": true, "ghost": true, "lemma": true, "func": true, "iface": true,
-	"extern": true, "requires": true, "ensures": true, "modifies": true, "loop": true, "at": true, "observe": true,
+	"extern": true, "requires": true, "ensures": true, "modifies": true, "loop": true, "at": true, "observe": true, "opaque": true,
 	"row": true, "exit": true, "entry": true, "props": true, "inline": true, "trusted": true, "table": true, "fact": true, "pure": true,
 	"params": true, "results": true, "opt": true, "just": true, "proof": true}
 
@@ -1172,6 +1173,13 @@ func (sp *Specs) LoadFile(path, pkgRel string) error {
 			}
 		case "observe":
 			for _, o := range strings.Split(rest, ",") {
+				cur.Observe = append(cur.Observe, strings.TrimSpace(o))
+			}
+		case "opaque":
+			// repo functions without a contract that are NOT inlined in this unit: the call is an event, its
+			// results and everything it may write (static write set, pointer arguments) are unknown afterwards
+			for _, o := range strings.Split(rest, ",") {
+				cur.Opaque = append(cur.Opaque, strings.TrimSpace(o))
 				cur.Observe = append(cur.Observe, strings.TrimSpace(o))
 			}
 		case "requires", "ensures":
